@@ -18,9 +18,17 @@ package main
 //	B<sym>        base.SetPredicate(ast.NewInt64BetweenOp({typed sym, (*ast.LimitExprNode)(nil), (*ast.SkipExprNode)(nil)}))
 //
 // <tree> is the resulting query read field by field; exec runs the recipe again and checks that.
+//
+// The line ends with `// X <names> // G <names>`: what the assembled query references BY CONSTRUCTION, computed from the
+// recipe's inputs and not from the resulting object — X: the identifiers of the predicate(s) handed in (listener tree of
+// the text, resp. the symbol given to I/B) followed by the identifiers of the sort clause that is in force (the base
+// text's own, or the one adopted from `other`), in visit order; G: that sort clause's identifiers, i.e. exactly what
+// GetSortFields() of the result must list.  The specification judges verdict, named symbol and the set of announced
+// symbols against X, and GetSortFields() against G.
 
 import (
 	"fmt"
+	"reflect"
 	"strconv"
 	"strings"
 
@@ -107,12 +115,83 @@ func c20RunRecipe(st *c20Stores, recipe string) (q ast.Query, err error) {
 	return base, nil
 }
 
+// identifiers of the predicate and of the sort clause of a query text, from the untyped tree the listener builds
+func c20TextSymbols(text string) (pred, sort []string, err error) {
+	if text == "" {
+		return nil, nil, nil
+	}
+	n, err := c20UntypedTree(text)
+	if err != nil {
+		return nil, nil, err
+	}
+	rv := reflect.ValueOf(n)
+	for rv.Kind() == reflect.Ptr || rv.Kind() == reflect.Interface {
+		rv = rv.Elem()
+	}
+	part := func(field string) []string {
+		f, ok := c20FieldByName(rv.Type(), field)
+		if !ok {
+			return nil
+		}
+		fv := rv.FieldByIndex(f.index)
+		if (fv.Kind() == reflect.Ptr || fv.Kind() == reflect.Interface) && fv.IsNil() {
+			return nil
+		}
+		toks, _, _ := c20WalkNode(c20Settable(fv).Interface(), nil)
+		var res []string
+		for i := 0; i+4 < len(toks); i++ {
+			if toks[i] == "N" && toks[i+1] == "UntypedSymbolNode" && toks[i+2] == "1" && toks[i+3] == "symbol" {
+				if s, err := c20UnName(toks[i+4]); err == nil {
+					res = append(res, s)
+				}
+			}
+		}
+		return res
+	}
+	return part("predicate"), part("sortBy"), nil
+}
+
+// what the assembled query references by construction (see the file comment)
+func c20RecipeExpected(recipe string) (x, g []string, err error) {
+	parts := strings.Split(recipe, "\x1f")
+	if len(parts) != 3 {
+		return nil, nil, fmt.Errorf("bad recipe")
+	}
+	pred, sort, err := c20TextSymbols(parts[0])
+	if err != nil {
+		return nil, nil, err
+	}
+	opred, osort, err := c20TextSymbols(parts[1])
+	if err != nil {
+		return nil, nil, err
+	}
+	for _, op := range strings.Split(parts[2], ";") {
+		switch {
+		case op == "" || op[0] == 'S' || op[0] == 'L':
+		case op == "P" || op == "&n" || op == "&t" || op == "&T":
+			pred = append([]string{}, opred...)
+		case op == "A":
+			sort = append([]string{}, osort...)
+		case op == "&":
+			pred = append(append([]string{}, pred...), opred...)
+		case op == "Pn" || op == "Pt" || op == "PT" || op == "Pz":
+			pred = nil
+		case op[0] == 'I' || op[0] == 'B':
+			pred = []string{op[1:]}
+		default:
+			return nil, nil, fmt.Errorf("bad op %q", op)
+		}
+	}
+	return append(append([]string{}, pred...), sort...), sort, nil
+}
+
 var c20RecipeOps = [][]string{{"P"}, {"A"}, {"P", "A"}, {"&"}, {"&", "A"}, {"&n"}, {"&t"}, {"&T"}, {"Pn"}, {"Pt"}, {"PT"}, {"Pz"},
 	{"S3"}, {"L7"}, {"S1", "L2", "A"}, {"Iname"}, {"Itags.k"}, {"Ikids.label"}, {"Bn"}, {"Btags.k"}, {"Bn", "A"}, {"A", "&"}, {"Imeta.x", "A", "L0"}}
 
 var c20RecipeTexts = []string{``, `true`, `name = "x"`, `flag`, `n > 1 sort by n desc`, `true sort by name, tags.k`, `tags.k = null sort by boss.name limit 2`,
 	`anyOf(roles) = "a" sort by id`, `count(from kids where label = "x" sort by name) > 0`, `meta.x contains "a" skip 1`,
 	`not isEmpty(kids) and at != null sort by at, f, flag`, `sort by kids.label`, `true limit none`,
+	`true sort by id, name, n, f, flag, at`, `flag sort by kids.label, boss.name desc, id, id`,
 	`n in [1, 2] sort by a, b`} // the last one does not parse (unknown symbols): skipped
 
 func (e *c20Emitter) recipes(thorough bool) {
@@ -131,6 +210,12 @@ func (e *c20Emitter) recipes(thorough bool) {
 					continue
 				}
 				toks, strs, _ := c20WalkNode(q, nil)
+				x, g, err := c20RecipeExpected(recipe)
+				if err != nil {
+					continue
+				}
+				strs = append(strs, x...)
+				toks = append(append(append(toks, "//", "X", c20Names(x)), "//", "G"), c20Names(g))
 				cap := 3
 				if thorough {
 					cap = 5
